@@ -31,7 +31,8 @@ check('C01',
       'returned; the correspondence run compares model and implementation on random pipelines and a small exhaustive slice sweep.',
       'Hand-written model tied by correspondence; additionally the start-time / sample-rate / step>0 arithmetic of Signal._time_slice '
       '(through which every crop and slice of the library goes) is REGENERATED from core.py by translator T4 on every run and '
-      'C01_generated_core proves the model time_slice is built from exactly those generated terms. '
+      'C01_generated_core proves the model time_slice is built from exactly those generated terms (C01_generated_derived: likewise dt, '
+      'time_length and stop_time from their property bodies). '
       'Trusted: Coq kernel, translator T4, Lib/PySlice = CPython slice.indices, astropy '
       'Time/Quantity = exact rationals within max(50 ps, 4e-15*elapsed); FFT-path ops (time_shift, dedispersion) are observed through '
       'their ledger only; rates 1 mHz - 5 GHz.',
@@ -42,9 +43,11 @@ check('C02',
       'evenly spaced by chan_bw, lie in [min_freq, max_freq] of width nchan*chan_bw; odd nchan forces center; for every accepted '
       'channel slice (and every nesting of slices) label\'(j) = label(lo+j), chan_bw kept, alignment center. Monitor C02_ok / '
       'C02_slice_ok evaluated on the observed channel_freqs etc.; correspondence on all radio classes.',
-      'Trusted: Coq kernel, translator T2 (align table + textual pin of the label formula), float64 label arithmetic within '
+      'The label formula, bandwidth, band edges and the arithmetic of RadioSignal._freq_slice are REGENERATED from core.py by translator '
+      'T4 on every run and C02_generated_label / _edges / _slice / _align prove the model is built from exactly those terms. '
+      'Trusted: Coq kernel, translators T2 (align table + textual pin of the label formula) and T4, float64 label arithmetic within '
       '2^-49*(|cf|+n*bw); domain |cf|/bw <= 2^30.',
-      'machine-checked proof in Coq (Q) with generated constants (T2) + correspondence run',
+      'machine-checked proof in Coq (Q) with constants (T2) and band arithmetic (T4) regenerated from source + correspondence run',
       'DESIGN.md 5 C02')
 
 check('C10',
